@@ -20,7 +20,9 @@ WORDS = ["alpha", "Beta", "g_1", "x.y", "done", "ACTIVE", "pend-ing", "truex", "
 PLAIN_QUOTED = ["cr\rhere", "two words", "a,b", "x:y", "has \"q\"", "back\\slash", "tab\there", "nl\nline", "", "1abc", "true", "null", "vs",
                 "-dash", "é accent", "a→b c", "[br]", "# hash", "// not comment", "50%", "a=b", "(p)", "semi;colon", "$", "§ref x",
                 "//server/share", "//cdn.example.com/lib.js", "/usr/bin", "./src", "docs/readme.md", "a//b", "http://x/y", "1.0rc1", "2.5e-05x",
-                "a→true", "X@null", "Speed→vs", "A⊕false.x", "true.", "null-x", "vs.a", "NAME{q}", "x<y>", "a<>", "N<a,b>", "\\n", "end\\"]
+                "a→true", "X@null", "Speed→vs", "A⊕false.x", "true.", "null-x", "vs.a", "NAME{q}", "x<y>", "a<>", "N<a,b>", "\\n", "end\\",
+                # strings that BEGIN or END with a layout character (line break, blank, tab): every quoting style must keep them
+                "\nlead", "trail\n", "\n", "\n\ntwo", "\n  indented\n", " lead", "trail ", " ", "\tlead", "trail\t", "\n== banner ==\n"]
 MW_EXTRA = ['"List<str>"', '"<docs>"', '"two words"', "42", '"1"', '"a→b"']
 COMMENTS = ["note", "TODO: x", "a // b", "ünï", "x::y", "-> arrow", "\"q\""]
 ZONE_LINES = ["plain", "  indented", "\ttab", "A::1", "===END===", "---", "``", "a -> b", "é́ nfd", "back\\slash \\n", "\"quoted\"",
@@ -28,14 +30,18 @@ ZONE_LINES = ["plain", "  indented", "\ttab", "A::1", "===END===", "---", "``", 
               "NAME{q} and A{b}", "K::\"s\" // c X{y}", "Ω{x} ́combining"]
 SHORT_FENCE_TAILS = ["", "", "cafe\u0301 title", "py", "  ", "é́"]
 TAGS = [None, "python", "json", "oct"]
+DEEP_NESTING = 5     # documented advisory threshold (docs/grammar/octave-v1.0-grammar.ebnf §6: "Warning at depth 5")
 
 
 class Spelling:
     """Lenient choices; `canonical=True` makes every choice the canonical one."""
 
     def __init__(self, rng: random.Random, canonical: bool = False, p: float = 0.5, only: set | None = None, envelope: bool = False,
-                 extreme: bool = False):
+                 extreme: bool = False, alias_index: int | None = None, triple: str | None = None):
         self.rng, self.canonical, self.p, self.only = rng, canonical, p, only
+        # deterministic corners for the fixed families: which ASCII alias of an operator (index into ALIASES[op], clipped) and
+        # which triple-quoted form ("raw" line breaks / "esc" escape sequences) a site takes WHEN it takes a non-canonical option
+        self.alias_index, self.triple = alias_index, triple
         # extreme: EVERY applicable site takes a non-canonical option (the far corner of the spelling space)
         self.extreme = extreme
         # may the envelope line of a document named INFERRED be left out?  A reader feature (C01/C02 exercise it); the tools treat
@@ -57,6 +63,8 @@ class Writer:
     def __init__(self):
         self.lines = [""]
         self.receipts = []
+        self.advisories = []       # expected non-rewrite records (deep_nesting), see r_value
+        self.deep_lines = set()
 
     @property
     def line(self):
@@ -110,9 +118,9 @@ def gen_scalar(rng, allow_multi=True):
 
 def gen_expr(rng):
     n = rng.randint(2, 4)
+    # two or more tension operators in one expression (`A vs B vs C`) are accepted by the lenient reader (advisory
+    # spec_violation/chained_tension, no rewrite) and canonicalise to A⇌B⇌C: members of the C01/C03 quantifiers like any other
     ops = [rng.choice(["→", "⊕", "⧺", "⇌", "∨", "@"]) for _ in range(n - 1)]
-    if ops.count("⇌") > 1:
-        ops = ["→" if o == "⇌" and i > ops.index("⇌") else o for i, o in enumerate(ops)]
     return {"t": "expr", "operands": [rng.choice(WORDS[:7]) for _ in range(n)], "ops": ops}
 
 
@@ -293,7 +301,7 @@ def r_op(w: Writer, sp: Spelling, op: str, spaced_ok=True):
     """write an operator, possibly as an ASCII alias (receipt: normalization)."""
     alias = None
     if op in ALIASES and sp.flip("alias"):
-        alias = sp.rng.choice(ALIASES[op])
+        alias = sp.rng.choice(ALIASES[op]) if sp.alias_index is None else ALIASES[op][min(sp.alias_index, len(ALIASES[op]) - 1)]
     if alias == "vs":
         w.w(" ")
         w.receipts.append(["normalization", "vs", {"s": op}, w.line, w.col])
@@ -322,10 +330,15 @@ def r_scalar(w: Writer, sp: Spelling, v, in_list=False):
             w.w('"""' + v["v"] + '"""')
     elif t == "qstr":
         s = v["v"]
-        if sp.flip("quotes") and "\\" not in s and '"""' not in s and not s.endswith('"') and "\t" not in s:
-            # a triple-quoted string may span lines (raw newline = newline in the value)
+        raw_ok = "\\" not in s and '"""' not in s and not s.endswith('"') and "\t" not in s
+        if sp.flip("quotes") and (raw_ok or sp.flip("quotes")):
             w.receipts.append(["normalization", '"""', {"s": s}, w.line, w.col])
-            w.w('"""' + s + '"""')
+            if raw_ok and (sp.triple == "raw" if sp.triple else sp.choice("quotes", [True, True, False])):
+                # a triple-quoted string may span lines (raw newline = newline in the value)
+                w.w('"""' + s + '"""')
+            else:
+                # ... and it reads the same escape sequences as a quoted string, so ANY string can be written this way
+                w.w('"""' + _escape(s) + '"""')
         else:
             w.w('"' + _escape(s) + '"')
     elif t == "words":
@@ -355,7 +368,7 @@ def r_scalar(w: Writer, sp: Spelling, v, in_list=False):
         raise ValueError(t)
 
 
-def r_value(w: Writer, sp: Spelling, v, indent: int, in_list=False):
+def r_value(w: Writer, sp: Spelling, v, indent: int, in_list=False, ldepth: int = 0):
     t = v["t"]
     if t == "expr":
         w.w(v["operands"][0])
@@ -365,7 +378,14 @@ def r_value(w: Writer, sp: Spelling, v, indent: int, in_list=False):
     elif t == "list":
         items = v["items"]
         multi = sp.flip("layout") and len(items) > 0
+        # advisory the reader is documented to give (grammar §6: "warning at depth 5"): the first bracket of a LINE that opens
+        # nesting level >= 5 — known here from the model's own nesting, not from any bracket counting over the text
+        if ldepth + 1 >= DEEP_NESTING and w.line not in w.deep_lines:
+            w.deep_lines.add(w.line)
+            w.advisories.append(["deep_nesting", ldepth + 1, DEEP_NESTING, w.line, w.col])
         w.w("[")
+        if not items:
+            w.w(_sp(sp))    # `[ ]`: blanks inside an empty list are layout
         for i, it in enumerate(items):
             if multi:
                 w.nl()
@@ -379,7 +399,7 @@ def r_value(w: Writer, sp: Spelling, v, indent: int, in_list=False):
                 else:
                     r_scalar(w, sp, it["v"], in_list=True)
             elif it["t"] in ("list", "expr"):
-                r_value(w, sp, it, indent + 2, in_list=True)
+                r_value(w, sp, it, indent + 2, in_list=True, ldepth=ldepth + 1)
             elif it["t"] == "zone":
                 raise ValueError("zone inside list not rendered")
             else:
@@ -468,6 +488,13 @@ def r_nodes(w: Writer, sp: Spelling, nodes, indent: int):
 
 def render(d: dict, sp: Spelling):
     """-> (text, receipts)."""
+    text, receipts, _adv = render_full(d, sp)
+    return text, receipts
+
+
+def render_full(d: dict, sp: Spelling):
+    """-> (text, rewrite receipts, advisories): advisories = the deep_nesting records [kind, depth, threshold, line, column] the
+    reader owes for lists the MODEL nests >= DEEP_NESTING deep (one per line, at the first such bracket)."""
     w = Writer()
     if d["fm"] is not None:
         w.w("---\n" + d["fm"] + "\n---\n")
@@ -506,7 +533,7 @@ def render(d: dict, sp: Spelling):
     if not sp.flip("end"):
         w.w("===END===")
         w.nl()
-    return w.text(), w.receipts
+    return w.text(), w.receipts, w.advisories
 
 
 # ---------------------------------------------------------------------------------------------
@@ -584,4 +611,81 @@ def matrix_docs():
         ch.insert(pos, {"t": "bzone", "lead": [], "v": zone})
         d = base(); d["nodes"] = [{"t": "block", "lead": [], "k": "B", "target": None, "ch": ch, "orphan": []}, asg({"t": "int", "v": 9})]
         out.append((f"bare-zone@{pos}", 0, d))
+    return out
+
+
+# ---------------------------------------------------------------------------------------------
+# fixed families: a handful of deterministic members of input classes the seeded generator reaches only rarely
+# (each check judges them with its own oracle, in the canonical spelling and in the deterministic corners of the spelling space)
+# ---------------------------------------------------------------------------------------------
+
+EDGE_STRINGS = ["\nlead", "\n", "\n\ntwo", "trail\n", "\n  indented\n", "\n== banner ==\n", " lead", "trail ", " ", "\tlead", "trail\t"]
+
+
+def _base(name="F"):
+    return {"name": name, "gv": None, "fm": None, "meta": [], "sep": False, "nodes": [], "trailing": []}
+
+
+def _asg(k, v, trail=None):
+    return {"t": "assign", "lead": [], "k": k, "v": v, "trail": trail}
+
+
+def _blk(k, ch):
+    return {"t": "block", "lead": [], "k": k, "target": None, "ch": ch, "orphan": []}
+
+
+def _lst(*items):
+    return {"t": "list", "items": list(items)}
+
+
+def _nest(v, n):
+    for _ in range(n):
+        v = _lst(v)
+    return v
+
+
+def family_docs():
+    """[(family, member name, content model)]."""
+    out = []
+    wd = lambda s: {"t": "word", "v": s}  # noqa: E731
+    ex = lambda operands, ops: {"t": "expr", "operands": list(operands), "ops": list(ops)}  # noqa: E731
+    # -- expressions with two or more tension operators (advisory only; canonical text A⇌B⇌C), in every position -----------------
+    chains = [ex("ABC", "⇌⇌"), ex(["Scope", "Time", "Cost"], "⇌⇌"), ex("ABCD", "⇌⇌⇌"), ex("ABCD", "⇌→⇌"), ex("ABCD", "→⇌⇌"), ex("ABCD", "⇌⇌⊕"),
+              ex("ABC", "⇌⇌")]
+    for i, e in enumerate(chains):
+        d = _base(); d["nodes"] = [_asg("K", e), _asg("Z", {"t": "int", "v": 9})]; out.append(("chained-tension", f"top{i}", d))
+    e = chains[1]
+    d = _base(); d["nodes"] = [_asg("K", _lst(e))]; out.append(("chained-tension", "list-single", d))
+    d = _base(); d["nodes"] = [_asg("K", _lst(wd("x"), e, wd("y")))]; out.append(("chained-tension", "list-middle", d))
+    d = _base(); d["nodes"] = [_asg("K", _lst(_lst(chains[0]), ex("AB", "⇌")))]; out.append(("chained-tension", "list-nested", d))
+    d = _base(); d["nodes"] = [_blk("B", [_asg("J", {"t": "int", "v": 1}), _asg("K", e)]), _asg("Z", {"t": "int", "v": 9})]; out.append(("chained-tension", "block", d))
+    d = _base(); d["nodes"] = [{"t": "section", "lead": [], "id": "1", "name": "S", "ann": None, "ch": [_asg("K", e)]}]; out.append(("chained-tension", "section", d))
+    d = _base(); d["meta"] = [["TYPE", wd("T")], ["F", e]]; d["nodes"] = [_asg("Z", {"t": "int", "v": 9})]; out.append(("chained-tension", "meta", d))
+    d = _base(); d["meta"] = [["N", {"nested": [["F", chains[0]]]}]]; d["nodes"] = [_asg("Z", {"t": "int", "v": 9})]; out.append(("chained-tension", "nested-meta", d))
+    # neighbours of the class: one tension; several binary tensions in one list
+    d = _base(); d["nodes"] = [_asg("K", ex("AB", "⇌")), _asg("L", _lst(ex("AB", "⇌"), ex("CD", "⇌")))]; out.append(("chained-tension", "binary-neighbours", d))
+    # -- strings that begin / end with a layout character, in every position a string can take ----------------------------------
+    for i, s0 in enumerate(EDGE_STRINGS):
+        q = {"t": "qstr", "v": s0}
+        d = _base(); d["meta"] = [["TYPE", wd("LOG")], ["BANNER", q]]
+        d["nodes"] = [_asg("K", q), _blk("B", [_asg("K", q), _asg("L", _lst(q, wd("a"), {"t": "pair", "k": "k", "v": q}))]), _asg("Z", {"t": "int", "v": 9})]
+        out.append(("edge-strings", f"s{i}", d))
+    # -- n literally empty lists, then a list: the reader owes NO record for any of them (nothing is nested, nothing rewritten) ----
+    keys = ["OWNERS", "REVIEWERS", "BLOCKERS", "LABELS", "WATCHERS", "LINKS", "NOTES_2"]
+    for n in range(0, 8):
+        tail = [_asg("STAGES", _lst(wd("plan"), wd("build"))), _asg("LAST", _lst())]
+        d = _base(); d["nodes"] = [_asg(keys[i % 7] + ("" if i < 7 else "_b"), _lst()) for i in range(n)] + tail; out.append(("empty-lists", f"top{n}", d))
+        d = _base(); d["nodes"] = [_blk("B", [_asg(keys[i % 7] + ("" if i < 7 else "_b"), _lst()) for i in range(n)] + tail), _asg("Z", _lst(_lst(wd("a"))))]
+        out.append(("empty-lists", f"block{n}", d))
+        d = _base(); d["nodes"] = [_asg("K", _lst(*([_lst() for _ in range(n)] + [_lst(wd("a"), _lst(wd("b")))]))), _asg("Z", _lst(wd("c")))]
+        out.append(("empty-lists", f"items{n}", d))
+    d = _base(); d["meta"] = [["TYPE", wd("T")]] + [[k, _lst()] for k in ("A_1", "B_1", "C_1", "D_1", "E_1")]
+    d["nodes"] = [_asg("K", _lst(_lst(wd("a")), wd("b"))), _asg("F", ex("AB", "→")), _asg("G", _lst(ex("AB", "→")))]; out.append(("empty-lists", "meta5", d))
+    d = _base(); d["nodes"] = [_asg(f"E{i}", _lst(), trail="c") for i in range(6)] + [_asg("F", ex("AB", "→")), _asg("G", _lst(ex("AB", "→"), _lst()))]
+    out.append(("empty-lists", "then-flow", d))
+    # -- genuinely deep lists: the advisory is owed exactly where the MODEL nests >= DEEP_NESTING, once per line ------------------
+    for n in (3, 4, 5, 6, 8):
+        d = _base(); d["nodes"] = [_asg("K", _nest(wd("a"), n)), _asg("L", _lst(wd("b"), _lst(wd("c")))), _asg("M", _nest(_lst(), n - 1))]
+        out.append(("deep-lists", f"depth{n}", d))
+    d = _base(); d["nodes"] = [_asg("K", _lst(_nest(wd("a"), 4), _nest(wd("b"), 5), wd("c"), _nest(_lst(), 4)))]; out.append(("deep-lists", "siblings", d))
     return out
